@@ -65,6 +65,8 @@ import Tie.MetaTable
 #print axioms Sourcer.C19_sugar
 #print axioms Sourcer.C19_repeat
 #print axioms Sourcer.C19_choice
+#print axioms Sourcer.C01_meaning_independent_of_fuel
+#print axioms Sourcer.C01_codegen_refines_peg_from_there_on
 #print axioms Sourcer.C02_tree_well_shaped_and_yield
 #print axioms Sourcer.C02_generated_code_builds_that_tree
 #print axioms Sourcer.C02_reductions_preserve_order
